@@ -307,12 +307,12 @@ func modelAt(h *History, completed, inflight int) *Expect {
 // Reopen child: opens one or more crash states and verifies them.
 
 type Verdict struct {
-	OK       bool   `json:"ok"`
-	FP       string `json:"fp,omitempty"`
-	Msg      string `json:"msg,omitempty"`
-	Head     uint64 `json:"head"`
-	Repairs  string `json:"repairs,omitempty"`
-	Continued bool  `json:"continued"`
+	OK        bool   `json:"ok"`
+	FP        string `json:"fp,omitempty"`
+	Msg       string `json:"msg,omitempty"`
+	Head      uint64 `json:"head"`
+	Repairs   string `json:"repairs,omitempty"`
+	Continued bool   `json:"continued"`
 }
 
 func reopenChild(r *vrt.Run) {
